@@ -65,6 +65,8 @@ type Spec struct {
 	Entries     []EntrySpec         `json:"entries"`
 	InitAllow   map[string]bool     `json:"init_allow"`
 	Noop        []string            `json:"noop"`
+	AtomicFuncs []string            `json:"atomic_funcs"`
+	Instrument  []string            `json:"instrument"` // thread harnesses: packages given replay scheduling points
 	Subst       map[string]string   `json:"subst"`
 	Tiers       map[string]TierSpec `json:"tiers"`
 	Functions   []string            `json:"functions"`
@@ -235,8 +237,8 @@ func run() int {
 	ovFile := filepath.Join(outDir, "overlay.json")
 	os.WriteFile(ovFile, ovJSON, 0o644)
 
-	if *flagReplay != "" {
-		return replayOnly(&spec, ovFile, *flagReplay)
+	if *flagReplay != "" && len(spec.Instrument) == 0 {
+		return replayOnly(&spec, ovFile, ovFile, *flagReplay)
 	}
 
 	// ----- load + build SSA from the current working tree -----
@@ -281,6 +283,39 @@ func run() int {
 	prog, _ := ssautil.AllPackages(pkgs, ssa.InstantiateGenerics)
 	prog.Build()
 	loadDur := time.Since(tl)
+
+	// ----- thread harnesses: replay instrumentation of the current source -----
+	ovSched := ovFile
+	var ist instrStats
+	if len(spec.Instrument) > 0 {
+		want := map[string]bool{}
+		for _, ip := range spec.Instrument {
+			want[ip] = true
+		}
+		instrDir := filepath.Join(outDir, "instr")
+		os.MkdirAll(instrDir, 0o755)
+		replI := map[string]string{}
+		for k, v := range testRepl {
+			replI[k] = v
+		}
+		var ierr error
+		packages.Visit(pkgs, nil, func(p *packages.Package) {
+			if want[p.PkgPath] && ierr == nil {
+				ierr = instrumentPackage(p, instrDir, replI, &ist)
+			}
+		})
+		if ierr != nil {
+			fmt.Printf("INCONCLUSIVE property=%s reason=instrumentation-failed %v\n", spec.Property, ierr)
+			writeEvidenceFailure(&spec, "instrumentation failed", t0)
+			return 2
+		}
+		j, _ := json.MarshalIndent(map[string]interface{}{"Replace": replI}, "", " ")
+		ovSched = filepath.Join(outDir, "overlay_sched.json")
+		os.WriteFile(ovSched, j, 0o644)
+		if *flagReplay != "" {
+			return replayOnly(&spec, ovSched, ovFile, *flagReplay)
+		}
+	}
 
 	targets := make([]*ssa.Package, len(spec.Packages))
 	var rt *ssa.Package
@@ -334,6 +369,16 @@ func run() int {
 	}
 	for _, n := range defaultNoop {
 		sh.Noop[n] = true
+	}
+	if len(spec.Instrument) > 0 {
+		sh.SchedPkgs = map[string]bool{}
+		for _, ip := range spec.Instrument {
+			sh.SchedPkgs[ip] = true
+		}
+	}
+	sh.AtomicFns = map[string]bool{}
+	for _, n := range spec.AtomicFuncs {
+		sh.AtomicFns[n] = true
 	}
 	for _, n := range spec.Noop {
 		sh.Noop[n] = true
@@ -467,15 +512,26 @@ func run() int {
 		}
 	}
 	nativeOK := true
+	raceConfirmed := map[int]bool{}
 	var nativeOut string
 	var nativeDur time.Duration
 	if len(files) > 0 && !*flagNoNative {
 		tn := time.Now()
-		nativeOut, err = runNative(&spec, ovFile, files)
-		nativeDur = time.Since(tn)
+		nativeOut, err = runNative(&spec, ovSched, files, nil, nil)
 		if err != nil {
 			nativeOK = false
 		}
+		// data races are confirmed by the Go race detector on free-running threads
+		nrace := 0
+		for i, df := range dfs {
+			if df.Kind == "cex" && strings.HasSuffix(df.AssertID, ".data-race-free") && nrace < 2 {
+				nrace++
+				if ok, _ := raceReplay(&spec, ovFile, files[i]); ok {
+					raceConfirmed[i] = true
+				}
+			}
+		}
+		nativeDur = time.Since(tn)
 	}
 	type nativeRes struct {
 		Failed  []string `json:"failed"`
@@ -519,6 +575,22 @@ func run() int {
 				if strings.HasSuffix(df.AssertID, ".uncaught-panic") && nr.Panic != "" {
 					repro = true
 				}
+				if strings.HasSuffix(df.AssertID, ".no-crash") && nr.Panic != "" {
+					repro = true
+				}
+				if strings.HasSuffix(df.AssertID, ".no-deadlock") {
+					for _, f := range nr.Failed {
+						if f == "deadlock" {
+							repro = true
+						}
+					}
+				}
+			}
+			if raceConfirmed[i] {
+				repro = true
+			}
+			if !repro && strings.HasSuffix(df.AssertID, ".data-race-free") && len(raceConfirmed) > 0 {
+				continue // further reports of the race already confirmed above
 			}
 			if repro {
 				confirmed++
@@ -601,7 +673,7 @@ func run() int {
 	// ----- evidence -----
 	writeEvidence(&spec, tier, results, prog, evExtra{
 		loadDur: loadDur, nativeDur: nativeDur, validated: validated, confirmed: confirmed, knownReproduced: knownReproduced,
-		inconclusive: inconclusive, violations: confirmed, t0: t0, workers: workers, lines: lines, sampleMismatch: sampleMismatch,
+		inconclusive: inconclusive, violations: confirmed, t0: t0, instr: ist, workers: workers, lines: lines, sampleMismatch: sampleMismatch,
 	})
 	status := "PASS"
 	if exit != 0 {
@@ -677,8 +749,9 @@ var defaultNoop = []string{
 	repoMod + "/internal/provider/logging.LogTarget",
 }
 
-func runNative(spec *Spec, ovFile string, files []string) (string, error) {
+func runNative(spec *Spec, ovFile string, files []string, extraArgs, extraEnv []string) (string, error) {
 	args := []string{"test", "-vet=off", "-count=1", "-run", "^TestVerifEntry_", "-overlay", ovFile, "-timeout", "20m"}
+	args = append(args, extraArgs...)
 	for _, ps := range spec.Packages {
 		if len(ps.Entries) > 0 {
 			args = append(args, "./"+ps.PkgDir)
@@ -686,7 +759,7 @@ func runNative(spec *Spec, ovFile string, files []string) (string, error) {
 	}
 	cmd := exec.Command("go", args...)
 	cmd.Dir = *flagRepo
-	cmd.Env = append(goEnv(), "VERIF_DRAWS="+strings.Join(files, ":"))
+	cmd.Env = append(append(goEnv(), "VERIF_DRAWS="+strings.Join(files, ":")), extraEnv...)
 	var out bytes.Buffer
 	cmd.Stdout = &out
 	cmd.Stderr = &out
@@ -694,9 +767,30 @@ func runNative(spec *Spec, ovFile string, files []string) (string, error) {
 	return out.String(), err
 }
 
-func replayOnly(spec *Spec, ovFile, file string) int {
+// raceReplay runs one counterexample with free-running threads under the Go race detector.
+func raceReplay(spec *Spec, ovPlain, file string) (bool, string) {
+	out, _ := runNative(spec, ovPlain, []string{file}, []string{"-race"}, []string{"VERIF_THREADS=free", "VERIF_ATTEMPTS=60", "CGO_ENABLED=1"})
+	return strings.Contains(out, "WARNING: DATA RACE"), out
+}
+
+func replayOnly(spec *Spec, ovFile, ovPlain, file string) int {
 	abs, _ := filepath.Abs(file)
-	out, err := runNative(spec, ovFile, []string{abs})
+	if b, err := os.ReadFile(abs); err == nil {
+		var df struct {
+			AssertID string `json:"assert_id"`
+		}
+		json.Unmarshal(b, &df)
+		if strings.HasSuffix(df.AssertID, ".data-race-free") {
+			ok, out := raceReplay(spec, ovPlain, abs)
+			fmt.Println(tail(out, 4000))
+			if ok {
+				fmt.Printf("VIOLATION property=%s replay=%s\n", spec.Property, abs)
+				return 1
+			}
+			return 0
+		}
+	}
+	out, err := runNative(spec, ovFile, []string{abs}, nil, nil)
 	fmt.Println(out)
 	b, rerr := os.ReadFile(abs + ".result.json")
 	if rerr == nil {
@@ -724,6 +818,7 @@ type evExtra struct {
 	validated, confirmed, knownReproduced, violations, workers, sampleMismatch int
 	inconclusive, lines []string
 	t0 time.Time
+	instr instrStats
 }
 
 func fileSHA(path string, cache map[string]string) string {
@@ -830,6 +925,7 @@ func writeEvidence(spec *Spec, tier TierSpec, results []*sym.EntryResult, prog *
 			"entry": r.Entry, "paths_completed": r.Paths, "paths_filtered_by_assume": r.Filtered, "paths_panicking": r.PanicPaths,
 			"decisions": r.Decisions, "solver_decided_branches": r.Unforced, "ssa_instructions": r.Steps,
 			"obligations": r.Obligations, "discharged": r.Discharged, "assert_sites": ids, "reach_witnesses": reached,
+			"thread_schedules_explored": r.ThreadPaths, "scheduling_points_passed": r.SchedPoints, "max_preemptions_on_a_path": r.MaxPreempts, "race_detector_accesses_checked": r.RaceChecks,
 			"exhaustive": r.Exhaustive, "wall_s": r.Wall.Seconds(), "violations": len(r.Violations), "max_alloc_elems_on_a_path": r.MaxAlloc,
 		})
 	}
@@ -906,6 +1002,9 @@ func writeEvidence(spec *Spec, tier TierSpec, results []*sym.EntryResult, prog *
 		"workers":               x.workers,
 		"uninitialised_packages_touched": un,
 		"rule":                  spec.Rule,
+	}
+	if len(spec.Instrument) > 0 {
+		coverage["thread_replay_instrumentation"] = map[string]interface{}{"packages": spec.Instrument, "files_rewritten": x.instr.Files, "scheduling_points_inserted": x.instr.Points, "not_instrumentable": x.instr.Warnings, "atomic_funcs": spec.AtomicFuncs}
 	}
 	ev := map[string]interface{}{
 		"property_id": spec.Property,
